@@ -271,7 +271,8 @@ def anneal_puso(H, num_anneals=1, anneal_duration=1000, initial_state=None,
 
     # must use type since we don't want errors from inheritance
     if type(H) in (QUSOMatrix, PUSOMatrix):
-        N = H.max_index + 1
+        # max_index is None if the model has no variables
+        N = H.max_index + 1 if H.max_index is not None else 0
         model = H
         reverse_mapping = dict(enumerate(range(N)))
     elif type(H) not in (QUSO, PUSO, PCSO):
@@ -431,7 +432,8 @@ def anneal_quso(L, num_anneals=1, anneal_duration=1000, initial_state=None,
 
     # must use type since we don't want errors from inheritance
     if type(L) == QUSOMatrix:
-        N = L.max_index + 1
+        # max_index is None if the model has no variables
+        N = L.max_index + 1 if L.max_index is not None else 0
         model = L
         reverse_mapping = dict(enumerate(range(N)))
         # mapping = reverse_mapping
